@@ -27,7 +27,7 @@ VARIABLES pl,      \* payload [cls, val] or "none"
           act
 vars == <<pl, depth, obs, act>>
 
-Frames == {"js", "jscatch", "jsfinally", "native", "reflectErr", "reflectNoErr", "reflectWrap", "exportTo", "ctor", "proxytrap", "getterTry", "forof"}
+Frames == {"js", "jscatch", "jsfinally", "native", "reflectErr", "reflectNoErr", "reflectWrap", "exportTo", "exportToNoErr", "ctor", "proxytrap", "getterTry", "forof"}
 Raisers == {"throw-prim", "throw-obj", "throw-err", "native-panic-value", "native-panic-goerror", "reflect-return-error",
             "reflect-return-wrapped", "reflect-return-joined", "native-repanic-exception", "interrupt", "overflow", "foreign-panic"}
 
